@@ -139,9 +139,19 @@ Proof.
     destruct (N.ltb_spec d0 (k0 * c0 + c0)); lia.
 Qed.
 
+Lemma prodN_le : forall a b, Forall2 N.le a b -> prodN a <= prodN b.
+Proof. induction 1; cbn [prodN]; [lia|nia]. Qed.
+Lemma iter_count_le : forall start cdims dims, length start = length cdims -> length dims = length cdims ->
+  Forall2 N.le (map2 (fun sc d => if d <? fst sc + snd sc then d - fst sc else snd sc) (combine start cdims) dims) cdims.
+Proof.
+  induction start as [|s st IH]; intros [|c cd] [|d ds] L1 L2; cbn [length combine map2] in *; try discriminate; [constructor|].
+  constructor; [cbn [fst snd]; destruct (N.ltb_spec d (s + c)); lia|apply IH; lia].
+Qed.
+
+(* a chunk has at most MaxHyperslabElements elements: Chunk() goes through ReadSlice, which refuses larger requests *)
 Theorem chunk_iter_tiles full dims cdims :
   Forall u64 dims -> dims <> [] -> lenN full = prodN dims ->
-  length cdims = length dims -> Forall (fun c => 0 < c) cdims ->
+  length cdims = length dims -> Forall (fun c => 0 < c) cdims -> prodN cdims <= max_hyperslab_elements ->
   (* every chunk of the grid is visited exactly once *)
   NoDup (iter_coords dims cdims) /\
   (* every element of the dataset lies in the box of exactly one visited chunk *)
@@ -153,7 +163,7 @@ Theorem chunk_iter_tiles full dims cdims :
   (forall cc, In cc (iter_coords dims cdims) ->
      iter_piece full dims cdims cc = Some (select full dims (box_axes dims cdims cc))).
 Proof.
-  intros Ud Hne Hlen L Hc. split; [apply NoDup_all_coords|]. split.
+  intros Ud Hne Hlen L Hc Hmaxc. split; [apply NoDup_all_coords|]. split.
   - intros x Hx. pose proof (Forall2_len _ _ _ Hx) as Lx.
     assert (BX : forall cc, In cc (iter_coords dims cdims) ->
               (In x (sel_coords (box_axes dims cdims cc)) <-> cc = map2 N.div x cdims)).
@@ -176,4 +186,6 @@ Proof.
     rewrite read_slice_ok; try assumption.
     + unfold box_axes. rewrite EB. reflexivity.
     + split; [assumption|]. split; assumption.
+    + destruct SV as (SL1 & _). unfold iter_box in EB. injection EB as Es Ec. rewrite <- Ec.
+      eapply N.le_trans; [apply prodN_le, iter_count_le|exact Hmaxc]; [rewrite Es|]; lia.
 Qed.
